@@ -239,8 +239,12 @@ def main(tier, replay):
         n = min(pr.get("counted", 0), 16)
         tag = f"{sh['name']}-{mode}-{'p' if pess else 'o'}-b{bs}"
         for i in range(n):
-            fk = rng.choice(["regionerr:EpochNotMatch", "regionerr:NotLeader", "regionerr:ServerIsBusy", "split", "split", "dropresp"])
-            if fk == "split":
+            fk = rng.choice(["regionerr:EpochNotMatch", "regionerr:NotLeader", "regionerr:ServerIsBusy", "split", "split", "dropresp", "push_min_commit", "reader"])
+            if fk in ("push_min_commit", "reader"):
+                # another client reads at this instant: it meets the locks written so far (possibly a secondary whose
+                # primary is not prewritten yet) and may push the primary's min-commit ts under the committer's feet
+                cases.append(txnlab.mk_scenario(f"{tag}-{i}-{fk}", sh, mode, pess, batch_size=bs, extras=[{"at": i, "what": fk, "k": ""}]))
+            elif fk == "split":
                 cases.append(txnlab.mk_scenario(f"{tag}-{i}-split", sh, mode, pess, batch_size=bs, extras=[{"at": i, "what": "split", "k": rng.choice(sh["keys"])}]))
             else:
                 cases.append(txnlab.mk_scenario(f"{tag}-{i}-{fk}", sh, mode, pess, batch_size=bs, faults=[{"at": i, "kind": fk}]))
@@ -289,7 +293,7 @@ def main(tier, replay):
         from perc_gate import thorough_coqchk
         thorough_coqchk("Verif.Percolator.Props", cov, v)
     cov.update(evaluations=len(allsc), distinct_nontrivial=len(distinct),
-               rule="shapes with 1-6 keys over 1-4 regions x {2pc, async, 1pc} x {optimistic, pessimistic} x commit batch size {default, 20 bytes} x one region error (EpochNotMatch / NotLeader / ServerIsBusy) or split or lost response at every prewrite/commit index (batches are re-split), plus pessimistic transactions kept open with a small managed ttl (heart-beats); every trace is judged by the extracted acceptor and by independent python rule predicates incl. the mutation table; distinct non-trivial = scenarios with >= 3 prewrite/commit requests or heart-beats",
+               rule="shapes with 1-6 keys over 1-4 regions x {2pc, async, 1pc} x {optimistic, pessimistic} x commit batch size {default, 20 bytes} x one region error (EpochNotMatch / NotLeader / ServerIsBusy) or split or lost response or a concurrent reader of every key (meets live locks, pushes the primary's min-commit ts) at every prewrite/commit index (batches are re-split), plus pessimistic transactions kept open with a small managed ttl (heart-beats); every trace is judged by the extracted acceptor and by independent python rule predicates incl. the mutation table; distinct non-trivial = scenarios with >= 3 prewrite/commit requests or heart-beats",
                samples=[{"scenario": sc, "told": r.get("told")} for sc, r in traces[len(probes):len(probes) + 2]] + [{"scenario": hb[0]}], input_distribution=dist)
     rc = v.finish()
     vlib.write_evidence(PID, cov, t0, violations=len(v.violations), level="proof",
